@@ -28,6 +28,8 @@ enum Op {
     Touch(u8),
     /// toggle the executable bit
     Chmod(u8),
+    /// set the permission bits of a tracked regular file (owner / group / other x-bits may disagree; git only looks at the owner's)
+    SetMode(u8, u16),
     /// remove the file / symlink
     Delete(u8),
     /// replace the file by a directory holding one file
@@ -103,7 +105,21 @@ fn ops_alphabet() -> Vec<Op> {
     for i in 0..NEW_PATHS.len() {
         v.push(Create(i as u8));
     }
+    // permission modes on the tracked 100644 file `a` (0) and the tracked 100755 file `x` (1)
+    for i in [0u8, 1] {
+        for mode in MODES {
+            v.push(SetMode(i, *mode));
+        }
+    }
     v
+}
+
+/// owner, group and other x-bits in all interesting disagreements
+const MODES: &[u16] = &[0o644, 0o755, 0o654, 0o645, 0o655, 0o744, 0o700, 0o600];
+
+/// the operations that are combined into pairs in the thorough tier: everything, but only four of the sixteen SetMode operations
+fn thorough_pair_ops() -> Vec<Op> {
+    ops_alphabet().into_iter().filter(|o| !matches!(o, Op::SetMode(..)) || matches!(o, Op::SetMode(0, 0o654) | Op::SetMode(0, 0o755) | Op::SetMode(1, 0o655) | Op::SetMode(1, 0o644))).collect()
 }
 
 struct Template {
@@ -222,6 +238,13 @@ fn apply(root: &Path, op: Op) -> Result<(), &'static str> {
                 _ => old_mtime,
             };
             set_mtime(&p, new);
+        }
+        SetMode(i, mode) => {
+            let p = tracked(i);
+            if !is_file(&p) {
+                return Err("not a regular file any more");
+            }
+            mach(std::fs::set_permissions(&p, std::fs::Permissions::from_mode(u32::from(mode))), "chmod");
         }
         Chmod(i) => {
             let p = tracked(i);
@@ -524,7 +547,7 @@ pub fn run(run: &'static Run) {
     let alphabet = ops_alphabet();
     let core = core_ops();
     run.rule(format!(
-        "worktree with tracked a (file), x (executable), d/b, p/t/f (directory p without tracked files of its own), l (symlink), intent-to-add entries n and nd/n2 (git add -N), .gitignore ('*.ign', 'igd/'); every mutation sequence of length <= 1 over {} operations {:?} (core.checkStat default and minimal), every pair of them (thorough) or of the 19 operations of quick_pair_ops() (quick; core.checkStat=minimal, index copied) \
+        "worktree with tracked a (file), x (executable), d/b, p/t/f (directory p without tracked files of its own), l (symlink), intent-to-add entries n and nd/n2 (git add -N), .gitignore ('*.ign', 'igd/'); every mutation sequence of length <= 1 over {} operations {:?} (core.checkStat default and minimal), every pair of thorough_pair_ops() = all but 12 of the 16 SetMode operations (thorough) or of the 19 operations of quick_pair_ops() (quick; core.checkStat=minimal, index copied) \
          (Create(i) makes {:?}){}; index timestamp - indexed mtime in {{+10 s (not racy), 0 (racily clean){}}}; after the last mutation of every sequence (every prefix is a sequence of its own) \
          status is compared for showUntrackedFiles = no, normal (collapsed, ignored collapsed), all (every file, ignored matching). \
          Non-trivial = final status not clean or the sequence contains a same-size same-mtime edit.",
@@ -546,7 +569,8 @@ pub fn run(run: &'static Run) {
             let quick2 = quick_pair_ops();
             let mut seqs: Vec<Vec<Op>> = Vec::new();
             vkit::enumerate::seqs(&alphabet, 0, 1, |ops| seqs.push(ops.to_vec()));
-            vkit::enumerate::seqs(if thorough { &alphabet } else { &quick2 }, 2, 2, |ops| seqs.push(ops.to_vec()));
+            let pairs_of = if thorough { thorough_pair_ops() } else { quick2 };
+            vkit::enumerate::seqs(&pairs_of, 2, 2, |ops| seqs.push(ops.to_vec()));
             for ops in &seqs {
                 let stealth = ops.iter().any(|o| matches!(o, Op::SameSizeKeepMtime(_)));
                 // quick: pairs that do not touch stat-sensitive state are only run against the racy index (every unchanged file gets a content check)
